@@ -7,6 +7,7 @@ import (
 	"context"
 	"errors"
 	"fmt"
+	"io"
 	"math/rand"
 	"net/http"
 	"net/http/httptest"
@@ -14,6 +15,7 @@ import (
 	"reflect"
 	"strconv"
 	"strings"
+	"sync/atomic"
 	"testing"
 	"testing/synctest"
 	"time"
@@ -21,12 +23,12 @@ import (
 
 // brCase is one request. Its canonical text form (op) is what travels to the Lean driver and what a
 // replay file holds; brParse(op) gives the case back.
-type brCase struct {
-	hdr     []string // Authorization values; nil = header absent
-	ve      string   // "-" no error; else two bits: errors.Is(ErrInvalidToken), errors.Is(ErrOAuth)
-	ek      string   // how the error is built: bare | wrap | join | custom
-	ed      string   // detail text
-	vi      bool     // verifier returns non-nil info
+// brLayer is one RequireBearerToken(verifier, opts): the scripted verifier's answer and the options.
+type brLayer struct {
+	ve      string // "-" no error; else two bits: errors.Is(ErrInvalidToken), errors.Is(ErrOAuth)
+	ek      string // how the error is built: bare | wrap | join | custom
+	ed      string // detail text
+	vi      bool   // verifier returns non-nil info
 	granted []string
 	expZero bool
 	exp     int64 // ns after the request started
@@ -36,8 +38,30 @@ type brCase struct {
 	req     []string
 	allow   bool
 	skew    int64
-	now     int64 // ns the verifier takes (virtual): time.Now() at the expiry check = start + now
-	label   string
+	now     int64 // ns after the request started at which the verifier returns (virtual): time.Now() at the expiry check
+}
+
+// brCase is one request through a chain of middlewares: the embedded layer is the outermost one,
+// more[k-1] the k-th behind it. up: the incoming request context already carries a TokenInfo.
+// wire: the response is observed by a real client of a real net/http server instead of a recorder.
+type brCase struct {
+	hdr []string // Authorization values; nil = header absent
+	brLayer
+	more      []brLayer
+	up        bool
+	upGranted []string
+	upExpZero bool
+	upExp     int64
+	wire      bool
+	label     string
+}
+
+func (c *brCase) layers() []*brLayer {
+	out := []*brLayer{&c.brLayer}
+	for i := range c.more {
+		out = append(out, &c.more[i])
+	}
+	return out
 }
 
 type brErr struct {
@@ -50,7 +74,7 @@ func (e *brErr) Is(t error) bool {
 	return e.inv && t == ErrInvalidToken || e.oa && t == ErrOAuth
 }
 
-func (c *brCase) err() error {
+func (c *brLayer) err() error {
 	if c.ve == "-" {
 		return nil
 	}
@@ -108,11 +132,7 @@ func brB(b bool) string {
 	return "0"
 }
 
-func (c *brCase) op() string {
-	h := "-"
-	if c.hdr != nil {
-		h = brXL(c.hdr)
-	}
+func (c *brLayer) opToks(sfx string) string {
 	vm := ""
 	if e := c.err(); e != nil {
 		vm = e.Error()
@@ -125,8 +145,33 @@ func (c *brCase) op() string {
 	if c.optsNil {
 		op = "n"
 	}
-	return fmt.Sprintf("req h=%s ve=%s vm=%s vi=%s gs=%s ex=%s op=%s rm=%s rs=%s am=%s sk=%d now=%d ek=%s ed=%s mo=%d",
-		h, c.ve, brX(vm), brB(c.vi), brXL(c.granted), ex, op, brX(c.rm), brXL(c.req), brB(c.allow), c.skew, c.now, c.ek, brX(c.ed), c.mono)
+	f := "ve%[1]s=%[2]s vm%[1]s=%[3]s vi%[1]s=%[4]s gs%[1]s=%[5]s ex%[1]s=%[6]s op%[1]s=%[7]s rm%[1]s=%[8]s rs%[1]s=%[9]s am%[1]s=%[10]s sk%[1]s=%[11]d now%[1]s=%[12]d ek%[1]s=%[13]s ed%[1]s=%[14]s mo%[1]s=%[15]d"
+	return fmt.Sprintf(f, sfx, c.ve, brX(vm), brB(c.vi), brXL(c.granted), ex, op, brX(c.rm), brXL(c.req), brB(c.allow), c.skew, c.now, c.ek, brX(c.ed), c.mono)
+}
+
+func (c *brCase) op() string {
+	h := "-"
+	if c.hdr != nil {
+		h = brXL(c.hdr)
+	}
+	op := "req h=" + h + " " + c.brLayer.opToks("")
+	if len(c.more) > 0 {
+		op += fmt.Sprintf(" nl=%d", 1+len(c.more))
+		for k := range c.more {
+			op += " " + c.more[k].opToks(fmt.Sprintf(".%d", k+1))
+		}
+	}
+	if c.up {
+		ex := "z"
+		if !c.upExpZero {
+			ex = strconv.FormatInt(c.upExp, 10)
+		}
+		op += fmt.Sprintf(" up=1 ugs=%s uex=%s", brXL(c.upGranted), ex)
+	}
+	if c.wire {
+		op += " tr=wire"
+	}
+	return op
 }
 
 func brUnX(s string) (string, bool) {
@@ -157,6 +202,52 @@ func brUnXL(s string) ([]string, bool) {
 	return out, true
 }
 
+func brParseLayer(kv map[string]string, sfx string) (brLayer, bool) {
+	c := brLayer{ek: "bare"}
+	ok := true
+	get := func(k string) string {
+		v, has := kv[k+sfx]
+		if !has {
+			ok = false
+		}
+		return v
+	}
+	c.ve = get("ve")
+	if c.ve != "-" && len(c.ve) != 2 {
+		return c, false
+	}
+	c.vi = get("vi") == "1"
+	var o2, o3, o4 bool
+	c.granted, o2 = brUnXL(get("gs"))
+	if ex := get("ex"); ex == "z" {
+		c.expZero = true
+	} else if n, err := strconv.ParseInt(ex, 10, 64); err == nil {
+		c.exp = n
+	} else {
+		return c, false
+	}
+	c.optsNil = get("op") == "n"
+	c.rm, o3 = brUnX(get("rm"))
+	c.req, o4 = brUnXL(get("rs"))
+	c.allow = get("am") == "1"
+	c.skew, _ = strconv.ParseInt(get("sk"), 10, 64)
+	c.now, _ = strconv.ParseInt(get("now"), 10, 64)
+	if v, has := kv["ek"+sfx]; has {
+		c.ek = v
+	}
+	if v, has := kv["ed"+sfx]; has {
+		c.ed, _ = brUnX(v)
+	} else if v, has := kv["vm"+sfx]; has {
+		// a hand-written replay without ek/ed: reproduce the text with a custom error
+		c.ed, _ = brUnX(v)
+		c.ek = "custom"
+	}
+	if v, has := kv["mo"+sfx]; has {
+		c.mono, _ = strconv.Atoi(v)
+	}
+	return c, ok && o2 && o3 && o4
+}
+
 func brParse(op string) (*brCase, bool) {
 	toks := strings.Fields(op)
 	if len(toks) == 0 || toks[0] != "req" {
@@ -168,156 +259,342 @@ func brParse(op string) (*brCase, bool) {
 			kv[t[:i]] = t[i+1:]
 		}
 	}
-	c := &brCase{ek: "bare"}
+	c := &brCase{}
 	ok := true
-	get := func(k string) string {
-		v, has := kv[k]
-		if !has {
-			ok = false
-		}
-		return v
-	}
-	if h := get("h"); h == "-" {
+	if h, has := kv["h"]; !has {
+		return nil, false
+	} else if h == "-" {
 		c.hdr = nil
 	} else {
 		c.hdr, ok = brUnXL(h)
 	}
-	c.ve = get("ve")
-	if c.ve != "-" && len(c.ve) != 2 {
-		return nil, false
+	var ok0 bool
+	c.brLayer, ok0 = brParseLayer(kv, "")
+	ok = ok && ok0
+	if v, has := kv["nl"]; has {
+		n, err := strconv.Atoi(v)
+		if err != nil || n < 1 || n > 8 {
+			return nil, false
+		}
+		for k := 1; k < n; k++ {
+			l, okk := brParseLayer(kv, fmt.Sprintf(".%d", k))
+			ok = ok && okk
+			c.more = append(c.more, l)
+		}
 	}
-	c.vi = get("vi") == "1"
-	var o2, o3, o4 bool
-	c.granted, o2 = brUnXL(get("gs"))
-	if ex := get("ex"); ex == "z" {
-		c.expZero = true
-	} else if n, err := strconv.ParseInt(ex, 10, 64); err == nil {
-		c.exp = n
-	} else {
-		return nil, false
+	if kv["up"] == "1" {
+		c.up = true
+		var o5 bool
+		c.upGranted, o5 = brUnXL(kv["ugs"])
+		ok = ok && o5
+		if ex := kv["uex"]; ex == "z" {
+			c.upExpZero = true
+		} else if n, err := strconv.ParseInt(ex, 10, 64); err == nil {
+			c.upExp = n
+		} else {
+			return nil, false
+		}
 	}
-	c.optsNil = get("op") == "n"
-	c.rm, o3 = brUnX(get("rm"))
-	c.req, o4 = brUnXL(get("rs"))
-	c.allow = get("am") == "1"
-	c.skew, _ = strconv.ParseInt(get("sk"), 10, 64)
-	c.now, _ = strconv.ParseInt(get("now"), 10, 64)
-	if v, has := kv["ek"]; has {
-		c.ek = v
-	}
-	if v, has := kv["ed"]; has {
-		c.ed, _ = brUnX(v)
-	} else if v, has := kv["vm"]; has {
-		// a hand-written replay without ek/ed: reproduce the text with a custom error
-		c.ed, _ = brUnX(v)
-		c.ek = "custom"
-	}
-	if v, has := kv["mo"]; has {
-		c.mono, _ = strconv.Atoi(v)
-	}
-	return c, ok && o2 && o3 && o4
+	c.wire = kv["tr"] == "wire"
+	return c, ok
 }
 
-// brRun sends the case through the real middleware. Must run inside a synctest bubble.
+// brChain builds, for one case, the real middlewares around probes and a final handler.
+// Chain: [upstream code storing a TokenInfo] -> RequireBearerToken#0 -> probe0 -> RequireBearerToken#1 -> ... -> final.
+// The probe directly behind middleware k IS that middleware's handler: it records what it finds in
+// the request context. t0 is the instant the request starts.
+type brChain struct {
+	h      http.Handler
+	infos  []*TokenInfo
+	snaps  []TokenInfo
+	upInfo *TokenInfo
+	upSnap TokenInfo
+	seen   []string
+	calls  []int
+	toks   []string
+	ran    int
+	gotHdr []string // Authorization values as the outermost handler received them
+	hadHdr bool
+	live   []string // WWW-Authenticate values in the writer's header map after the chain returned
+}
+
+func brCloneInfo(ti *TokenInfo) TokenInfo {
+	s := *ti
+	s.Scopes = append([]string(nil), ti.Scopes...)
+	s.Extra = map[string]any{}
+	for k, v := range ti.Extra {
+		s.Extra[k] = v
+	}
+	return s
+}
+
+func (ch *brChain) classify(ti *TokenInfo) string {
+	if ti == nil {
+		return "nil"
+	}
+	for j, p := range ch.infos {
+		if p != nil && ti == p {
+			if reflect.DeepEqual(*ti, ch.snaps[j]) {
+				return fmt.Sprintf("L%d", j)
+			}
+			return fmt.Sprintf("changed%d", j)
+		}
+	}
+	if ch.upInfo != nil && ti == ch.upInfo {
+		if reflect.DeepEqual(*ti, ch.upSnap) {
+			return "up"
+		}
+		return "changedup"
+	}
+	return "other"
+}
+
+func brBuild(c *brCase, t0 time.Time) *brChain {
+	ls := c.layers()
+	n := len(ls)
+	ch := &brChain{infos: make([]*TokenInfo, n), snaps: make([]TokenInfo, n), seen: make([]string, n), calls: make([]int, n), toks: make([]string, n)}
+	mkExp := func(ns int64, mono int) time.Time {
+		e := t0.Add(time.Duration(ns))
+		switch mono {
+		case 0:
+			e = e.Round(0)
+		case 2:
+			e = e.Round(0).In(time.FixedZone("east", 5*3600+1800))
+		}
+		return e
+	}
+	for k := range ch.seen {
+		ch.seen[k] = "-"
+	}
+	var h http.Handler = http.HandlerFunc(func(w http.ResponseWriter, r *http.Request) {
+		ch.ran++
+		ch.seen[n-1] = ch.classify(TokenInfoFromContext(r.Context()))
+		w.WriteHeader(299)
+		fmt.Fprint(w, "inner")
+	})
+	for k := n - 1; k >= 0; k-- {
+		k, l := k, ls[k]
+		if l.vi {
+			info := &TokenInfo{Scopes: append([]string(nil), l.granted...), UserID: fmt.Sprintf("user-%d", k), Extra: map[string]any{"k": "v", "layer": k}}
+			if !l.expZero {
+				info.Expiration = mkExp(l.exp, l.mono)
+			}
+			ch.infos[k] = info
+			ch.snaps[k] = brCloneInfo(info)
+		}
+		verr := l.err()
+		verifier := func(ctx context.Context, token string, req *http.Request) (*TokenInfo, error) {
+			ch.calls[k]++
+			ch.toks[k] = token
+			if d := time.Until(t0.Add(time.Duration(l.now))); l.now > 0 && d > 0 && !c.wire {
+				time.Sleep(d) // virtual
+			}
+			return ch.infos[k], verr
+		}
+		var opts *RequireBearerTokenOptions
+		if !l.optsNil {
+			opts = &RequireBearerTokenOptions{ResourceMetadataURL: l.rm, Scopes: l.req, AllowMissingExpiration: l.allow, ClockSkew: time.Duration(l.skew)}
+		}
+		if k < n-1 {
+			next := h
+			h = http.HandlerFunc(func(w http.ResponseWriter, r *http.Request) {
+				ch.seen[k] = ch.classify(TokenInfoFromContext(r.Context()))
+				next.ServeHTTP(w, r)
+			})
+		}
+		h = RequireBearerToken(verifier, opts)(h)
+	}
+	if c.up {
+		ch.upInfo = &TokenInfo{Scopes: append([]string(nil), c.upGranted...), UserID: "upstream", Extra: map[string]any{"k": "up"}}
+		if !c.upExpZero {
+			ch.upInfo.Expiration = mkExp(c.upExp, 1)
+		}
+		ch.upSnap = brCloneInfo(ch.upInfo)
+	}
+	chain := h
+	ch.h = http.HandlerFunc(func(w http.ResponseWriter, r *http.Request) {
+		ch.gotHdr, ch.hadHdr = r.Header["Authorization"]
+		if ch.upInfo != nil {
+			r = r.WithContext(context.WithValue(r.Context(), tokenInfoKey{}, ch.upInfo))
+		}
+		defer func() { ch.live = append([]string(nil), w.Header().Values("WWW-Authenticate")...) }()
+		chain.ServeHTTP(w, r)
+	})
+	return ch
+}
+
+// obs renders the observation. sent: the WWW-Authenticate values of the response as a client gets it.
+func (ch *brChain) obs(status int, sent []string, body string) string {
+	vc := make([]string, len(ch.calls))
+	vt := make([]string, len(ch.calls))
+	for k := range ch.calls {
+		vc[k] = strconv.Itoa(ch.calls[k])
+		vt[k] = "-"
+		if ch.calls[k] > 0 {
+			vt[k] = brX(ch.toks[k])
+		}
+	}
+	// late: values of the live header map that the client never got (multiset difference)
+	left := append([]string(nil), sent...)
+	var late []string
+	for _, v := range ch.live {
+		found := false
+		for i, s := range left {
+			if s == v {
+				left = append(left[:i], left[i+1:]...)
+				found = true
+				break
+			}
+		}
+		if !found {
+			late = append(late, v)
+		}
+	}
+	return fmt.Sprintf("st=%d ran=%d info=%s vc=%s vt=%s www=%s late=%s body=%s", status, ch.ran, strings.Join(ch.seen, ","),
+		strings.Join(vc, ","), strings.Join(vt, ","), brXL(sent), brXL(late), brX(body))
+}
+
+// brRun sends the case through the real middleware(s) into a recorder. Must run inside a synctest
+// bubble. The response is read from rec.Result(): the header snapshot taken at WriteHeader, which
+// is what a client would get; rec.Header() is the live map and shows headers added too late.
 func brRun(c *brCase) (obs string) {
 	defer func() {
 		if r := recover(); r != nil {
 			obs = "panic"
 		}
 	}()
-	t0 := time.Now()
-	var info *TokenInfo
-	var snap TokenInfo
-	if c.vi {
-		info = &TokenInfo{Scopes: append([]string(nil), c.granted...), UserID: "user-7", Extra: map[string]any{"k": "v"}}
-		if !c.expZero {
-			e := t0.Add(time.Duration(c.exp))
-			switch c.mono {
-			case 0:
-				e = e.Round(0)
-			case 2:
-				e = e.Round(0).In(time.FixedZone("east", 5*3600+1800))
-			}
-			info.Expiration = e
-		}
-		snap = *info
-		snap.Scopes = append([]string(nil), info.Scopes...)
-		snap.Extra = map[string]any{"k": "v"}
-	}
-	verr := c.err()
-	calls, lastTok := 0, ""
-	verifier := func(ctx context.Context, token string, req *http.Request) (*TokenInfo, error) {
-		calls++
-		lastTok = token
-		if c.now > 0 {
-			time.Sleep(time.Duration(c.now)) // virtual
-		}
-		return info, verr
-	}
-	var opts *RequireBearerTokenOptions
-	if !c.optsNil {
-		opts = &RequireBearerTokenOptions{ResourceMetadataURL: c.rm, Scopes: c.req, AllowMissingExpiration: c.allow, ClockSkew: time.Duration(c.skew)}
-	}
-	ran, seen := 0, "-"
-	inner := http.HandlerFunc(func(w http.ResponseWriter, r *http.Request) {
-		ran++
-		ti := TokenInfoFromContext(r.Context())
-		switch {
-		case ti == nil:
-			seen = "nil"
-		case ti != info:
-			seen = "other"
-		case !reflect.DeepEqual(*ti, snap):
-			seen = "changed"
-		default:
-			seen = "same"
-		}
-		w.WriteHeader(299)
-		fmt.Fprint(w, "inner")
-	})
-	h := RequireBearerToken(verifier, opts)(inner)
+	ch := brBuild(c, time.Now())
 	req := httptest.NewRequest("GET", "http://rs.example/mcp", nil)
 	if c.hdr != nil {
 		req.Header["Authorization"] = c.hdr
 	}
 	rec := httptest.NewRecorder()
-	h.ServeHTTP(rec, req)
-	vt := "-"
-	if calls > 0 {
-		vt = brX(lastTok)
+	ch.h.ServeHTTP(rec, req)
+	res := rec.Result()
+	return ch.obs(res.StatusCode, res.Header.Values("WWW-Authenticate"), rec.Body.String())
+}
+
+// brWire is a real net/http server on loopback plus a client; cases run one at a time.
+type brWire struct {
+	srv *httptest.Server
+	cur atomic.Pointer[brChain]
+}
+
+func brNewWire() *brWire {
+	w := &brWire{}
+	w.srv = httptest.NewServer(http.HandlerFunc(func(rw http.ResponseWriter, r *http.Request) {
+		defer func() {
+			if rec := recover(); rec != nil {
+				rw.Header().Set("X-Verif-Panic", "1")
+				rw.WriteHeader(599)
+			}
+		}()
+		w.cur.Load().h.ServeHTTP(rw, r)
+	}))
+	return w
+}
+
+// brWireOK: the case can go over a real connection and a real clock unchanged: header values a
+// client may send, no scripted delays, expirations at least a minute away from the boundary.
+func brWireOK(c *brCase) bool {
+	for _, v := range c.hdr {
+		for i := 0; i < len(v); i++ {
+			if b := v[i]; b < 0x20 && b != '\t' || b == 0x7f {
+				return false
+			}
+		}
 	}
-	www := rec.Header().Values("WWW-Authenticate")
-	return fmt.Sprintf("st=%d ran=%d info=%s vc=%d vt=%s www=%s body=%s", rec.Code, ran, seen, calls, vt, brXL(www), brX(rec.Body.String()))
+	for _, l := range c.layers() {
+		se := l.skew
+		if l.optsNil {
+			se = 0
+		}
+		if d := l.exp + se; l.now != 0 || !l.expZero && d > -int64(time.Minute) && d < int64(time.Minute) {
+			return false
+		}
+	}
+	return true
+}
+
+// run sends the case over the wire. The op is re-derived from the Authorization values the server
+// received (net/http trims optional whitespace around field values).
+func (w *brWire) run(c *brCase) (op, obs string) {
+	ch := brBuild(c, time.Now())
+	w.cur.Store(ch)
+	req, err := http.NewRequest("GET", w.srv.URL+"/mcp", nil)
+	if err != nil {
+		return c.op(), "client-error"
+	}
+	if c.hdr != nil {
+		req.Header["Authorization"] = c.hdr
+	}
+	resp, err := w.srv.Client().Do(req)
+	if err != nil {
+		return c.op(), "client-error"
+	}
+	defer resp.Body.Close()
+	body, _ := io.ReadAll(resp.Body)
+	if resp.Header.Get("X-Verif-Panic") != "" {
+		return c.op(), "panic"
+	}
+	cc := *c
+	cc.hdr = nil
+	if ch.hadHdr {
+		cc.hdr = append([]string{}, ch.gotHdr...)
+	}
+	return cc.op(), ch.obs(resp.StatusCode, resp.Header.Values("WWW-Authenticate"), string(body))
 }
 
 func brTags(c *brCase, obs string) []string {
 	tags := []string{}
 	f := strings.Fields(obs)
-	if len(f) > 1 {
+	if len(f) > 2 {
 		tags = append(tags, f[0], f[1]) // st=\u2026, ran=\u2026
+		if len(c.more) > 0 {
+			// how far the request got: number of middlewares whose handler ran
+			d := 0
+			for _, x := range strings.Split(strings.TrimPrefix(f[2], "info="), ",") {
+				if x != "-" {
+					d++
+				}
+			}
+			tags = append(tags, fmt.Sprintf("stack:%d/%d", d, 1+len(c.more)))
+		}
 	}
 	if c.label != "" {
 		tags = append(tags, "hdr:"+c.label)
 	}
-	tags = append(tags, "verr:"+c.ve)
-	if c.optsNil {
-		tags = append(tags, "opts:nil")
+	if c.up {
+		tags = append(tags, "ctx:prepopulated")
 	}
-	if c.vi && c.ve == "-" {
-		if c.expZero {
-			tags = append(tags, "exp:zero")
-		} else {
-			switch d := c.exp + c.skew - c.now; {
-			case d == 0:
-				tags = append(tags, "exp+skew=now")
-			case d == -1:
-				tags = append(tags, "exp+skew=now-1ns")
-			case d == 1:
-				tags = append(tags, "exp+skew=now+1ns")
-			case d < 0:
-				tags = append(tags, "exp:past")
-			default:
-				tags = append(tags, "exp:future")
+	if c.wire {
+		tags = append(tags, "tr:wire")
+	}
+	for k, l := range c.layers() {
+		if k > 0 {
+			tags = append(tags, fmt.Sprintf("verr.%d:%s", k, l.ve))
+			continue
+		}
+		tags = append(tags, "verr:"+l.ve)
+		if l.optsNil {
+			tags = append(tags, "opts:nil")
+		}
+		if l.vi && l.ve == "-" {
+			if l.expZero {
+				tags = append(tags, "exp:zero")
+			} else {
+				switch d := l.exp + l.skew - l.now; {
+				case d == 0:
+					tags = append(tags, "exp+skew=now")
+				case d == -1:
+					tags = append(tags, "exp+skew=now-1ns")
+				case d == 1:
+					tags = append(tags, "exp+skew=now+1ns")
+				case d < 0:
+					tags = append(tags, "exp:past")
+				default:
+					tags = append(tags, "exp:future")
+				}
 			}
 		}
 	}
@@ -429,8 +706,8 @@ func brExpiries(skew, now int64) []*int64 {
 func brEnumerate(emit func(*brCase)) {
 	opts := brOptions()
 	mk := func(h brHdr, v brVer, sc [2][]string, o brOpt, exp *int64, now int64, mono int) {
-		c := &brCase{hdr: h.vals, label: h.label, ve: v.ve, ek: v.ek, ed: v.ed, vi: v.vi, granted: sc[1], req: sc[0],
-			optsNil: o.isNil, rm: o.rm, allow: o.allow, skew: o.skew, now: now, mono: mono}
+		c := &brCase{hdr: h.vals, label: h.label, brLayer: brLayer{ve: v.ve, ek: v.ek, ed: v.ed, vi: v.vi, granted: sc[1], req: sc[0],
+			optsNil: o.isNil, rm: o.rm, allow: o.allow, skew: o.skew, now: now, mono: mono}}
 		if exp == nil {
 			c.expZero = true
 		} else {
@@ -473,13 +750,195 @@ func brEnumerate(emit func(*brCase)) {
 			}
 		}
 	}
+	// Stage C: the middleware as a MIDDLEWARE. Requests whose context already carries a TokenInfo
+	// (upstream code, an enclosing RequireBearerToken) and chains of two and three middlewares with
+	// different verifiers, scopes and options: every combination of per-middleware outcomes.
+	brStacks(func(c *brCase) { emit(c) })
+	// Stage D: the same decision table observed by a real HTTP client of a real net/http server.
+	brStacks(func(c *brCase) {
+		if brWireOK(c) {
+			c.wire = true
+			emit(c)
+		}
+	})
+	for _, h := range brHeaders {
+		for _, v := range brVerifiers {
+			for _, si := range []int{2, 4, 7} {
+				for _, oi := range []int{0, 1, 12, 20} {
+					o := opts[oi]
+					for _, e := range brExpiries(o.skew, 0)[4:6] {
+						c := &brCase{hdr: h.vals, label: h.label, wire: true, brLayer: brLayer{ve: v.ve, ek: v.ek, ed: v.ed, vi: v.vi,
+							granted: brScopeSets[si][1], req: brScopeSets[si][0], optsNil: o.isNil, rm: o.rm, allow: o.allow, skew: o.skew, mono: 1, exp: *e}}
+						if brWireOK(c) {
+							emit(c)
+						}
+					}
+				}
+			}
+		}
+	}
+}
+
+// brProfiles: what one middleware of a chain does with a well-formed credential "tok": admit
+// (several shapes) or reject for each cause. Every profile has its own scopes/options so that the
+// challenge and the token info of different middlewares are told apart.
+func brProfiles() []brLayer {
+	const rmA, rmB = "https://rs.example/.well-known/oauth-protected-resource", "https://gw.example/prm"
+	h := int64(time.Hour)
+	return []brLayer{
+		{ve: "-", ek: "bare", vi: true, granted: []string{"a", "b"}, req: []string{"a"}, rm: rmA, exp: h, mono: 1},                  // admit
+		{ve: "-", ek: "bare", vi: true, granted: []string{"admin"}, req: []string{"admin"}, rm: rmB, allow: true, expZero: true},   // admit, no expiration
+		{ve: "-", ek: "bare", vi: true, granted: nil, optsNil: true, exp: 100 * 365 * 24 * h},                                        // admit, nil options
+		{ve: "-", ek: "bare", vi: true, granted: []string{"x"}, req: nil, skew: int64(30 * time.Second), exp: -int64(29 * time.Second), now: 0}, // admit within skew
+		{ve: "-", ek: "bare", vi: true, granted: []string{"a"}, req: []string{"a", "b"}, rm: rmA, exp: h},                           // 403
+		{ve: "-", ek: "bare", vi: true, granted: []string{"a"}, req: []string{"a"}, rm: rmB, exp: -h},                               // 401 expired
+		{ve: "-", ek: "bare", vi: true, granted: []string{"a"}, req: []string{"a"}, expZero: true},                                  // 401 missing expiration
+		{ve: "10", ek: "wrap", ed: "signature mismatch", req: []string{"s1", "s2"}},                                                 // 401 invalid token
+		{ve: "01", ek: "bare", rm: rmA},                                                                                              // 400
+		{ve: "00", ek: "bare", ed: "backend down", rm: rmA, req: []string{"a"}},                                                     // 500
+		{ve: "-", ek: "bare", vi: false, rm: rmB},                                                                                    // 500 nil info
+	}
+}
+
+func brStacks(emit func(*brCase)) {
+	ps := brProfiles()
+	hdrs := []brHdr{brHeaders[3], brHeaders[6], brHeaders[0], brHeaders[10]}
+	for hi, h := range hdrs {
+		for up := 0; up < 3; up++ {
+			mk := func(ls ...brLayer) {
+				c := &brCase{hdr: h.vals, label: h.label, brLayer: ls[0], more: append([]brLayer(nil), ls[1:]...)}
+				switch up {
+				case 1: // a TokenInfo that would itself be rejected (no scopes, long expired)
+					c.up, c.upGranted, c.upExp = true, nil, -int64(time.Hour)
+				case 2: // a powerful one
+					c.up, c.upGranted, c.upExpZero = true, []string{"a", "b", "admin", "root"}, true
+				}
+				emit(c)
+			}
+			for _, a := range ps {
+				mk(a)
+				if hi >= 2 && up > 0 {
+					continue
+				}
+				for _, b := range ps {
+					mk(a, b)
+				}
+			}
+			if hi == 0 {
+				for _, a := range ps[:5] {
+					for _, b := range ps[:5] {
+						for _, d := range ps {
+							mk(a, b, d)
+						}
+					}
+				}
+			}
+		}
+	}
+	// delays: each verifier of a chain takes time; an inner token can expire while an outer verifier works
+	s5 := int64(5 * time.Second)
+	for _, d := range []int64{-1, 0, 1} {
+		a := brLayer{ve: "-", ek: "bare", vi: true, granted: []string{"a"}, req: []string{"a"}, exp: int64(time.Hour), now: s5, mono: 1}
+		b := brLayer{ve: "-", ek: "bare", vi: true, granted: []string{"b"}, req: []string{"b"}, rm: "https://rs.example/prm", exp: 2*s5 + d, now: 2 * s5}
+		emit(&brCase{hdr: brHeaders[3].vals, label: "plain", brLayer: a, more: []brLayer{b}})
+		b.exp = s5 + d // judged at 2*s5: expired although it was valid when the outer verifier returned
+		emit(&brCase{hdr: brHeaders[3].vals, label: "plain", brLayer: a, more: []brLayer{b}})
+	}
 }
 
 var brPieces = []string{"Bearer", "bearer", "BEARER", "BeArEr", "Basic", "Bearer:", "Bearer,", "tok", "t0k.en-_~+/=", "x", " ", "  ", "\t",
 	"\u00a0", "\u2003", "\u3000", "\v", "\f", "\r", "\n", "\u0085", "\u1680", "\u2028", "\u202f", "\u205f", "\u200b", "\ufeff", "\u212a", "\u00e9", ",", ";", "\"", "=", "\u180e"}
 
+var brAlpha = []string{"a", "b", "c", "d", "A", "", "a b", "read:x", "\u00e9", "q\"uo\\te"}
+
+func brPick(rng *rand.Rand, max int) []string {
+	var out []string
+	for n := rng.Intn(max + 1); n > 0; n-- {
+		out = append(out, brAlpha[rng.Intn(len(brAlpha))])
+	}
+	return out
+}
+
+var brMags = []int64{0, 1, 2, 999, int64(time.Millisecond), int64(time.Second), int64(30 * time.Second), int64(time.Hour), int64(24 * 365 * time.Hour), int64(200 * 24 * 365 * time.Hour)}
+
+func brMag(rng *rand.Rand) int64 {
+	m := brMags[rng.Intn(len(brMags))]
+	if m > 2 && rng.Intn(2) == 0 {
+		m += int64(rng.Intn(1000)) - 500
+	}
+	if rng.Intn(2) == 0 {
+		m = -m
+	}
+	return m
+}
+
+// brRandLayer draws one middleware: verifier outcome, scopes, options, expiry. floor is the instant
+// (ns after the request started) at which the enclosing middleware's verifier returned. admitBias:
+// outer middlewares of a chain are drawn so that they mostly admit, else nothing reaches the inner ones.
+func brRandLayer(rng *rand.Rand, floor int64, admitBias bool) brLayer {
+	c := brLayer{ek: "bare", mono: rng.Intn(3)}
+	if rng.Intn(4) == 0 && !(admitBias && rng.Intn(4) > 0) {
+		v := brVerifiers[rng.Intn(len(brVerifiers))]
+		c.ve, c.ek, c.ed, c.vi = v.ve, v.ek, v.ed, v.vi
+	} else {
+		c.ve, c.vi = "-", true
+	}
+	c.req = brPick(rng, 4)
+	kind := rng.Intn(3)
+	if admitBias && rng.Intn(3) > 0 {
+		kind = 0
+	}
+	switch kind {
+	case 0: // superset, shuffled
+		c.granted = append(append([]string{}, c.req...), brPick(rng, 2)...)
+		rng.Shuffle(len(c.granted), func(i, j int) { c.granted[i], c.granted[j] = c.granted[j], c.granted[i] })
+	case 1: // one required scope removed
+		c.granted = append(append([]string{}, c.req...), brPick(rng, 2)...)
+		if len(c.req) > 0 {
+			drop := c.req[rng.Intn(len(c.req))]
+			var g []string
+			for _, s := range c.granted {
+				if s != drop {
+					g = append(g, s)
+				}
+			}
+			c.granted = g
+		}
+	default:
+		c.granted = brPick(rng, 5)
+	}
+	c.optsNil = rng.Intn(8) == 0
+	c.rm = []string{"", "https://rs.example/meta", "https://rs.example/m?x=\"1\"&y=\\", "u\u00e9"}[rng.Intn(4)]
+	c.allow = rng.Intn(2) == 0
+	if rng.Intn(3) > 0 {
+		c.skew = brMag(rng)
+	}
+	c.now = floor
+	if rng.Intn(3) == 0 {
+		c.now = floor + brMags[rng.Intn(8)]
+	}
+	skewEff := c.skew
+	if c.optsNil {
+		skewEff = 0
+	}
+	switch r := rng.Intn(10); {
+	case r == 0:
+		c.expZero = true
+	case r < 6:
+		c.exp = c.now - skewEff + int64(rng.Intn(5)) - 2
+	case r < 8:
+		c.exp = c.now + int64(rng.Intn(5)) - 2
+	default:
+		c.exp = c.now + brMag(rng)
+	}
+	if admitBias && rng.Intn(3) > 0 && !c.expZero && c.exp+skewEff < c.now {
+		c.exp = c.now - skewEff + int64(rng.Intn(3))
+	}
+	return c
+}
+
 func brRandom(rng *rand.Rand) *brCase {
-	c := &brCase{label: "random", ek: "bare", mono: rng.Intn(3)}
+	c := &brCase{label: "random"}
 	ws := []string{" ", "  ", "\t", "\u00a0", "\u3000", " \t ", "\u2003", "\n", "\u0085"}
 	switch r := rng.Intn(10); {
 	case r == 0:
@@ -510,74 +969,52 @@ func brRandom(rng *rand.Rand) *brCase {
 		}
 		c.hdr = []string{s}
 	}
-	if rng.Intn(4) == 0 {
-		v := brVerifiers[rng.Intn(len(brVerifiers))]
-		c.ve, c.ek, c.ed, c.vi = v.ve, v.ek, v.ed, v.vi
-	} else {
-		c.ve, c.vi = "-", true
+	// the chain: one middleware in half of the cases, else two or three
+	n := 1
+	if rng.Intn(2) == 0 {
+		n = 2 + rng.Intn(2)
 	}
-	alpha := []string{"a", "b", "c", "d", "A", "", "a b", "read:x", "\u00e9", "q\"uo\\te"}
-	pick := func(max int) []string {
-		var out []string
-		for n := rng.Intn(max + 1); n > 0; n-- {
-			out = append(out, alpha[rng.Intn(len(alpha))])
-		}
-		return out
+	c.brLayer = brRandLayer(rng, 0, n > 1)
+	floor := c.brLayer.now
+	for k := 1; k < n; k++ {
+		l := brRandLayer(rng, floor, k < n-1)
+		floor = l.now
+		c.more = append(c.more, l)
 	}
-	c.req = pick(4)
-	switch rng.Intn(3) {
-	case 0: // superset, shuffled
-		c.granted = append(append([]string{}, c.req...), pick(2)...)
-		rng.Shuffle(len(c.granted), func(i, j int) { c.granted[i], c.granted[j] = c.granted[j], c.granted[i] })
-	case 1: // one required scope removed
-		c.granted = append(append([]string{}, c.req...), pick(2)...)
-		if len(c.req) > 0 {
-			drop := c.req[rng.Intn(len(c.req))]
-			var g []string
-			for _, s := range c.granted {
-				if s != drop {
-					g = append(g, s)
-				}
-			}
-			c.granted = g
-		}
-	default:
-		c.granted = pick(5)
-	}
-	c.optsNil = rng.Intn(8) == 0
-	c.rm = []string{"", "https://rs.example/meta", "https://rs.example/m?x=\"1\"&y=\\", "u\u00e9"}[rng.Intn(4)]
-	c.allow = rng.Intn(2) == 0
-	mags := []int64{0, 1, 2, 999, int64(time.Millisecond), int64(time.Second), int64(30 * time.Second), int64(time.Hour), int64(24 * 365 * time.Hour), int64(200 * 24 * 365 * time.Hour)}
-	mag := func() int64 {
-		m := mags[rng.Intn(len(mags))]
-		if m > 2 && rng.Intn(2) == 0 {
-			m += int64(rng.Intn(1000)) - 500
-		}
-		if rng.Intn(2) == 0 {
-			m = -m
-		}
-		return m
-	}
-	if rng.Intn(3) > 0 {
-		c.skew = mag()
-	}
+	// the incoming request context: empty, or already holding somebody's TokenInfo
 	if rng.Intn(3) == 0 {
-		c.now = mags[rng.Intn(8)]
+		c.up = true
+		c.upGranted = brPick(rng, 4)
+		if rng.Intn(2) == 0 {
+			c.upExpZero = true
+		} else {
+			c.upExp = brMag(rng)
+		}
 	}
-	skewEff := c.skew
-	if c.optsNil {
-		skewEff = 0
+	return c
+}
+
+// brWireify moves a case to the conditions of a real connection and clock: no scripted delays,
+// expirations far from the boundary; nil if the header cannot be sent by a client.
+func brWireify(c *brCase, rng *rand.Rand) *brCase {
+	for _, l := range c.layers() {
+		l.now = 0
+		se := l.skew
+		if l.optsNil {
+			se = 0
+		}
+		if d := l.exp + se; !l.expZero && d > -int64(time.Minute) && d < int64(time.Minute) {
+			far := int64(time.Minute) + int64(rng.Intn(1000))*int64(time.Hour)
+			if rng.Intn(2) == 0 {
+				far = -far
+			}
+			l.exp = far - se
+		}
 	}
-	switch r := rng.Intn(10); {
-	case r == 0:
-		c.expZero = true
-	case r < 6:
-		c.exp = c.now - skewEff + int64(rng.Intn(5)) - 2
-	case r < 8:
-		c.exp = c.now + int64(rng.Intn(5)) - 2
-	default:
-		c.exp = c.now + mag()
+	if !brWireOK(c) {
+		return nil
 	}
+	c.wire = true
 	return c
 }
 
@@ -587,6 +1024,12 @@ func TestVerifBearer(t *testing.T) {
 	n := 0
 	var batch []*brCase
 	var ids []string
+	var wire *brWire
+	defer func() {
+		if wire != nil {
+			wire.srv.Close()
+		}
+	}()
 	flush := func() {
 		if len(batch) == 0 {
 			return
@@ -602,9 +1045,19 @@ func TestVerifBearer(t *testing.T) {
 	}
 	emit := func(prefix string) func(*brCase) {
 		return func(c *brCase) {
-			batch = append(batch, c)
-			ids = append(ids, fmt.Sprintf("%s%d", prefix, n))
+			id := fmt.Sprintf("%s%d", prefix, n)
 			n++
+			if c.wire {
+				// real server, real client, real clock: outside the bubble
+				if wire == nil {
+					wire = brNewWire()
+				}
+				op, obs := wire.run(c)
+				out.line(id, op, obs, brTags(c, obs)...)
+				return
+			}
+			batch = append(batch, c)
+			ids = append(ids, id)
 			if len(batch) >= 512 {
 				flush()
 			}
@@ -649,7 +1102,13 @@ func TestVerifBearer(t *testing.T) {
 	nr := verifN(4000, 400000)
 	rng := verifRng(14)
 	for i := 0; i < nr; i++ {
-		emit("r")(brRandom(rng))
+		c := brRandom(rng)
+		if i%8 == 7 {
+			if w := brWireify(c, rng); w != nil {
+				c = w
+			}
+		}
+		emit("r")(c)
 	}
 	flush()
 }
